@@ -263,6 +263,14 @@ def var2h (e : Ext) (nvalvar nvalh nbsec rainfall hstart : Int) (sec : Nat → I
       | .inr c => pure c
       | .inl _ => pure 0
 
+/-- `c_dateutils_isleapyear(year)`: `year % 4 == 0 && (year % 100 != 0 || year % 400 == 0)` — three remainders
+by constants -/
+def isleapyear (year : Int) : R Int := do
+  let a ← cmod year 4
+  let b ← cmod year 100
+  let c ← cmod year 400
+  pure (if a = 0 ∧ (b ≠ 0 ∨ c = 0) then 1 else 0)
+
 /-- `c_dateutils_daysinmonth`: the table `days_in_month[13]` is indexed behind the `1..12` guard -/
 def daysinmonth (month : Int) : R Int :=
   if month < 1 ∨ month > 12 then pure (-1)
